@@ -56,6 +56,8 @@ def r1_stable_insertion(ctx):
                     dv = [d for d in f._defs() if d[0] == v and not d[3]]
                     if any(d[1] in body for d in dv) and any(d[1] not in body for d in dv):
                         adv.append((h, b, i, st['p']['l'], t[2]))
+    if not adv and _search_form_insertion(ctx, f):
+        return
     if not ctx.floor('loop-carried link walk in DualLinkedList::add', len(adv), 1):
         return
     for (h, b, i, var, link) in adv:
@@ -115,6 +117,98 @@ def r1_stable_insertion(ctx):
                   f.where(b), {'walk_start': start, 'link': link, 'advance_iff_cur_time': pred, 'insert': side})
 
 
+def _search_form_insertion(ctx, f):
+    """`let cur = self.walk().find(|&c| (*c).time <= node.time)`: the walk is a private cursor type (its `next` yields the current node and
+    moves along one link), the stop test is the predicate handed to `find`.  Builds the same table as the loop form; returns True if the
+    form was recognised (and checked)."""
+    from .engine.core import _deref_ty
+    P = ctx.P
+    NEG = {'le': 'gt', 'lt': 'ge', 'ge': 'lt', 'gt': 'le'}
+    for s in f.calls():
+        if (s.callee or '') != 'std::iter::Iterator::find' or len(s.args) != 2 or not s.argtys:
+            continue
+        ity = strip_generics(_deref_ty(s.argtys[0]))
+        gs = [g for g in P.impls_of_trait_method('std::iter::Iterator', 'next') if g.self_adt and strip_generics(g.self_adt) == ity]
+        if len(gs) != 1:
+            continue
+        g = gs[0]
+        ctx.touch(g)
+        it = peel_c(f.expr_operand(s.args[0], s.b, 'T'))
+        if not (it[0] == 'agg' and len(it[2]) == 1 and len(it) > 3):
+            continue
+        state_field = it[3][0]
+        start = receiver_field(it[2][0])
+        # the cursor: every Some(x) it yields is the state at entry, and the state moves along exactly one link of that node
+        link = None
+        yields_state = True
+        n_some = 0
+        for path, outcome, decs in g.enum_paths():
+            if outcome != 'return':
+                continue
+            r = path_ret_resolved(g, path)
+            r = peel(r) if r is not None else None
+            if r is None or r[0] != 'agg' or str(r[1]).endswith('Option::None'):
+                continue
+            n_some += 1
+            pay = peel(r[2][0]) if r[2] else None
+            yields_state = yields_state and pay is not None and pay[0] == 'field' and pay[2] == state_field
+            ws = [e for e in path_effects(g, path) if e[0] == 'w' and e[2] == state_field]
+            if len(ws) == 1 and ws[0][4] is not None:
+                v = peel(ws[0][4])
+                if v[0] == 'field' and v[2] in ('prev', 'next') and any(x[0] == 'field' and x[2] == state_field for x in walk(v[1])):
+                    link = v[2] if link in (None, v[2]) else 'mixed'
+                else:
+                    link = 'mixed'
+            else:
+                link = 'mixed'
+        if not (n_some >= 1 and yields_state and link in ('prev', 'next')):
+            continue
+        # the stop test
+        cl = peel(f.expr_operand(s.args[1], s.b, 'T'))
+        c = P.fns.get(cl[1][len('closure:'):]) if cl[0] == 'agg' and str(cl[1]).startswith('closure:') else None
+        stop = None
+        for _, rt in (ret_trees(c) if c else []):
+            a = atom_of(resolve_captures(P, c, rt), ('eq', 1))
+            if a and a[0] == 'cmp':
+                l, r, op = a[2], a[3], a[1]
+                lt = l[0] == 'field' and l[2] == 'time' and any(x[0] == 'arg' and x[1] in (2, '_2') for x in walk(l))
+                rt_ = r[0] == 'field' and r[2] == 'time' and any(x[0] == 'arg' and x[1] in (2, '_2') for x in walk(r))
+                if lt and not rt_:
+                    stop = op
+                elif rt_ and not lt:
+                    stop = SWAP[op]
+        pred = NEG.get(stop)
+        # insertion side relative to the found node
+        is_cur = lambda t: any(x[0] == 'call' and x[1] == 'std::iter::Iterator::find' for x in walk(t))
+        side = None
+        stores = {}
+        for bb in sorted(f.reachable()):
+            for ii, st in enumerate(f.stmts(bb)):
+                if st['k'] == 'assign' and st['p']['pr']:
+                    fl = [e for e in st['p']['pr'] if e['k'] == 'field']
+                    if fl and fl[-1].get('n') in ('prev', 'next') and fl[-1].get('adt', '').endswith('EventNode'):
+                        dst = f.expr_place({'l': st['p']['l'], 'pr': st['p']['pr'][:-1]}, bb, ii)
+                        if any(x[0] == 'call' and x[1].endswith('EventNode::new') for x in walk(dst)) and not is_cur(dst):
+                            stores[fl[-1]['n']] = f.expr_rvalue(st['r'], bb, ii)
+        if 'prev' in stores and 'next' in stores:
+            p_, n_ = peel(stores['prev']), peel(stores['next'])
+            if is_cur(p_) and p_[0] != 'field' or (p_[0] == 'field' and p_[2] == '0' and is_cur(p_)):
+                if n_[0] == 'field' and n_[2] == 'next' and is_cur(n_[1]):
+                    side = 'after'
+            if side is None and (is_cur(n_) and not (n_[0] == 'field' and n_[2] in ('next', 'prev'))) and p_[0] == 'field' and p_[2] == 'prev' and is_cur(p_[1]):
+                side = 'before'
+        start = _sentinel_roles(P).get(start, start)
+        table = (start, link, pred, side)
+        ok = table in (('tail', 'prev', 'gt', 'after'), ('head', 'next', 'le', 'before'))
+        ctx.check(ok, 'insertion-table',
+                  'sorted insertion is stable: a new node is placed after every existing node with an equal timestamp '
+                  '(cursor from %s along %s, passes a node iff its time %s new.time, insert %s the found node)' % (start, link, pred, side),
+                  s.where(), {'form': 'search over a private cursor', 'walk_start': start, 'link': link, 'advance_iff_cur_time': pred, 'insert': side})
+        ctx.__dict__['_c03_search_form'] = True
+        return True
+    return False
+
+
 def r1b_all_time_walks(ctx):
     """every loop in the list module that walks along a link while comparing node times must use the stable predicate"""
     ctx.set_rule('C03.R1')
@@ -153,6 +247,8 @@ def r1b_all_time_walks(ctx):
                     ctx.check(timed == [want], 'time-walk:%s' % f.key.split('::')[-1],
                               'a walk along `%s` in %s advances iff cur.time %s new.time — the only predicate that places a new node after all nodes with an equal timestamp' % (t[2], short(f.key), '>' if want == 'gt' else '<='),
                               f.where(b), {'link': t[2], 'advance_iff_cur_time': timed})
+    if ctx.__dict__.get('_c03_search_form'):
+        n += 1     # the walk of DualLinkedList::add is a search over a private cursor, decided in R1 above
     ctx.floor('time-comparing link walks in the list module', n, 1)
 
 
